@@ -7,6 +7,7 @@ static GLOBAL: alloc::Counting = alloc::Counting;
 mod plans;
 mod report;
 mod sched;
+mod tokio_twin;
 mod refs;
 
 use report::{Ctx, Tier};
